@@ -202,12 +202,27 @@ func genStruct(r *hx.Rng, depth int) *Ty {
 			f.Omit = true
 			tag = append(tag, "omitempty")
 		}
-		k := f.T.K
-		arrayish := (k == "sl" || k == "ar") && (f.T.E.K == "bool" || f.T.E.K == "i8" || f.T.E.K == "u8" || f.T.E.K == "i32" || f.T.E.K == "u32" || f.T.E.K == "i64" || f.T.E.K == "u64")
+		// a slice or array (possibly behind pointers) whose elements (possibly pointers) are byte/int32/int64-tagged
+		seq := f.T
+		for seq.K == "ptr" {
+			seq = seq.E
+		}
+		arrayish := false
+		if seq.K == "sl" || seq.K == "ar" {
+			el := seq.E
+			for el.K == "ptr" {
+				el = el.E
+			}
+			arrayish = el.K == "bool" || el.K == "i8" || el.K == "u8" || el.K == "i32" || el.K == "u32" || el.K == "i64" || el.K == "u64"
+		}
 		// the option on other field types is an encoder error; on a Marshaler (or an interface or pointer that may
 		// hold one) whose TagType is an array the encoder writes the array payload under a TagList header (a
 		// malformed document, reported to C01's owner: not a use the documentation names) - not generated
-		mayMarshal := k == "any" || k == "raw" || k == "dyn" || k == "ptr"
+		base := f.T
+		for base.K == "ptr" {
+			base = base.E
+		}
+		mayMarshal := base.K == "any" || base.K == "raw" || base.K == "dyn"
 		if (arrayish && r.Intn(3) == 0) || (r.Intn(40) == 0 && !mayMarshal) {
 			f.List = true
 			tag = append(tag, "list")
@@ -1129,7 +1144,28 @@ func inUniverse(t *Ty, v *Val) bool {
 		}
 	case "st":
 		for i, f := range t.F {
-			if !f.Skip && !inUniverse(f.T, v.L[i]) {
+			if f.Skip {
+				continue
+			}
+			if f.List {
+				// the slice or array behind the pointers is written as a TagList whatever its first element is
+				ft, fv := f.T, v.L[i]
+				for ft.K == "ptr" && fv.K == '&' {
+					ft, fv = ft.E, fv.P
+				}
+				if ft.K == "any" {
+					return false // an interface holding []byte written as a list comes back as []any
+				}
+				if ft.K == "sl" || ft.K == "ar" {
+					for _, e := range fv.L {
+						if !inUniverse(ft.E, e) {
+							return false
+						}
+					}
+					continue
+				}
+			}
+			if !inUniverse(f.T, v.L[i]) {
 				return false
 			}
 		}
@@ -2150,6 +2186,9 @@ func main() {
 				{K: "sl", E: &Ty{K: "ptr", E: base}},
 				{K: "st", F: []Fld{{Go: "L", Name: "L", Tag: `nbt:",list"`, List: true, T: &Ty{K: "sl", E: base}}}},
 				{K: "st", F: []Fld{{Go: "L", Name: "L", Tag: `nbt:",list"`, List: true, T: &Ty{K: "ar", N: 2, E: base}}}},
+				{K: "st", F: []Fld{{Go: "L", Name: "L", Tag: `nbt:",list"`, List: true, T: &Ty{K: "sl", E: &Ty{K: "ptr", E: base}}}}},
+				{K: "st", F: []Fld{{Go: "L", Name: "L", Tag: `nbt:",list"`, List: true, T: &Ty{K: "ptr", E: &Ty{K: "sl", E: base}}}}},
+				{K: "st", F: []Fld{{Go: "L", Name: "L", Tag: `nbt:",list,omitempty"`, List: true, Omit: true, T: &Ty{K: "ar", N: 2, E: &Ty{K: "ptr", E: &Ty{K: "ptr", E: base}}}}}},
 			}
 			for _, t := range wraps {
 				run("kinds."+k, t, genVal(r, t, 3, false))
